@@ -274,6 +274,7 @@ func runC09(r *Report) {
 	ruleExactLength(r)
 	ruleInputsValidated(r)
 	ruleIndexEntryComplete(r)
+	ruleDecompressedLength(r)
 }
 
 // endsInNilReturn: following jumps from b ends in a return with constant-nil error.
@@ -342,6 +343,46 @@ func ruleCrcAgree(r *Report) {
 			r.Bad(rule, key, fn.Pos(), "the checksum is not fed exactly the value parameter")
 		} else {
 			r.OK(rule, key, mk[0].Pos(), "crc64 table "+tables[k]+" over the value")
+		}
+	}
+	// 0 means "nothing to verify" in the index; a non-empty value must never be stored or compared with it
+	for _, k := range []string{"sstables.SSTableStreamWriter.WriteNext", "sstables.checksumValue"} {
+		fn := r.P.Func(k)
+		if fn == nil {
+			continue
+		}
+		key := rule + "/" + k + "/zero-means-absent"
+		okZ := false
+		for _, s := range CallsIn(fn, Keys("sstables.nonZeroChecksum")) {
+			a := s.Call().Common().Args
+			if len(a) != 2 {
+				continue
+			}
+			if c, ok := a[0].(*ssa.Call); ok && c.Call.IsInvoke() && c.Call.Method.Name() == "Sum64" {
+				if po := paramOrigin(a[1]); po != nil && (po.Name() == "value" || len(fn.Params) == 1) {
+					okZ = true
+				}
+			}
+		}
+		if okZ {
+			r.OK(rule, key, fn.Pos(), "the sum passes through the shared zero-avoiding helper with the value it was computed from")
+		} else {
+			r.Bad(rule, key, fn.Pos(), "the raw CRC-64 is used: a non-empty value whose CRC-64/ISO is 0 (e.g. f4 42 2f f4 42 2f f4 12) is stored with checksum 0, which readers take for \"no checksum recorded\" and never verify: a flipped bit in that record is served without error under verify-on-load and verify-on-read")
+		}
+	}
+	if hz := r.P.Func("sstables.nonZeroChecksum"); hz != nil {
+		key := rule + "/sstables.nonZeroChecksum/shape"
+		// returns a non-zero constant exactly when sum == 0 and the value is non-empty
+		good := false
+		for _, rs := range returnsOf(hz) {
+			if c, ok := constInt(rs.Instr.(*ssa.Return).Results[0]); ok && c != 0 {
+				good = true
+			}
+		}
+		if good {
+			r.OK(rule, key, hz.Pos(), "zero sum of a non-empty value is replaced by a non-zero constant")
+		} else {
+			r.Bad(rule, key, hz.Pos(), "the helper never replaces a zero sum")
 		}
 	}
 	if len(tables) == 2 && tables["sstables.SSTableStreamWriter.WriteNext"] != tables["sstables.checksumValue"] {
